@@ -50,7 +50,7 @@ func c01Scenario(c *Ctx, p c01Params) Sched {
 			if cfgKey != "basic" {
 				st := env.NewFaultStore()
 				st.HonorTTL = p.Prologue != "store-lazy-expired-record" // lazy: hands back records past their TTL
-				if p.Prologue == "store-writes-fail" { // the store is reachable for reads, every write is refused
+				if p.Prologue == "store-writes-fail" {                  // the store is reachable for reads, every write is refused
 					st.Menu = func(op string, key []byte) []env.Fault {
 						if op == "set" {
 							return []env.Fault{{Name: "error", Err: env.ErrInjected}}
